@@ -59,6 +59,7 @@ def run(ctx, mode, seed, seconds, seed_texts):
         st = json.load(open(os.path.join(work, 'stats.json')))
     except Exception:
         st = {}
+    ctx.last_cgf_work = work          # the corpus the run grew (coverage-distinct texts) stays there for the caller
     ctx.count('coverage_guided_fuzzing_runs')
     ctx.count('texts_generated_under_coverage_guidance', st.get('texts', 0))
     try:
@@ -75,3 +76,18 @@ def run(ctx, mode, seed, seconds, seed_texts):
     if slow:
         ctx.count('coverage_guided_inputs_slow_or_large(not judged)', slow)
     return st, fired, slow
+
+
+def corpus_texts(ctx, limit=None):
+    """the texts of the corpus grown by the last run (each reached coverage no earlier text had reached)"""
+    d = os.path.join(getattr(ctx, 'last_cgf_work', ''), 'corpus')
+    out = []
+    for name in sorted(os.listdir(d)) if os.path.isdir(d) else []:
+        try:
+            out.append(decode(open(os.path.join(d, name), 'rb').read()))
+        except OSError:
+            pass
+    if limit is not None and len(out) > limit:
+        import random
+        out = random.Random(len(out)).sample(out, limit)
+    return out
